@@ -247,6 +247,21 @@ def run_multi(ctx, model, focus):
         ctx.case("kernel-unpackmulti", ("um", n, data))
         lines.append("k.unpackmulti " + sx.hexb(data))
         pend.append(("kernel-unpackmulti", {"n": n}, impl2))
+        # the same reply cut short inside or just behind its offset table (`offset_data` is then cut by the slice;
+        # half an offset fails the whole parse)
+        for cut in sorted({2, 3, 4, 2 + n, 1 + 2 * n, 2 + 2 * n, 3 + 2 * n, rng.randint(2, len(data))}):
+            if cut >= len(data):
+                continue
+            short = data[:cut]
+            raw2 = raw[:50] + short
+            try:
+                resp = MultiServiceResponsePacket(m, raw2)
+                impl3 = "ok (" + " ".join(sx.hexb(bytes(x.raw[46:])) for x in resp.responses) + ")"
+            except BaseException as e:  # noqa
+                impl3 = "err " + core.exn_class(e)
+            ctx.case("kernel-unpackmulti-short", ("ums", n, short))
+            lines.append("k.unpackmulti " + sx.hexb(short))
+            pend.append(("kernel-unpackmulti-short", {"n": n, "cut": cut}, impl3))
     _flush(ctx, model, lines, pend)
 
 
